@@ -21,7 +21,9 @@ _P = None
 
 
 SRC_SIMD = os.path.join(ROOT, "src", "controls_simd.c")
-UNITS = [(SRC, ["-std=gnu11"], "controls.json"), (SRC_SIMD, ["-std=gnu11", "-mavx2"], "controls_simd.json")]
+SRC_OMP = os.path.join(ROOT, "src", "controls_omp.c")
+UNITS = [(SRC, ["-std=gnu11"], "controls.json"), (SRC_SIMD, ["-std=gnu11", "-mavx2"], "controls_simd.json"),
+         (SRC_OMP, ["-std=gnu11", "-fopenmp"], "controls_omp.json")]
 
 
 def program():
@@ -237,7 +239,24 @@ def widen(ctx):
     _expect(ctx, "R24.sign-extension", c2, ["signext_bad"], ["signext_good"])
 
 
-ALL = {"widen": widen, "progress": progress, "lazyinit": lazyinit, "lanes": lanes, "atomic": atomic, "feasible": feasible, "endian": endian, "units": units, "alloc": alloc, "status": status, "ownership": ownership, "cursor": cursor, "arrays": arrays,
+def region_args(ctx):
+    from .props import C07
+    P = program()
+    c = _sub()
+    n = C07.control_region_args(c, P, "omp_args_bad", "src/controls_omp.c") + C07.control_region_args(c, P, "omp_args_good", "src/controls_omp.c")
+    ctx.control("R7.region-arg classifies the control arguments", n >= 5, str(n))
+    _expect(ctx, "R7.region-arg", c, ["omp_args_bad"], ["omp_args_good"])
+
+
+def hidden(ctx):
+    from .rules import hidden as hd
+    P = program()
+    c = _sub()
+    hd.check(c, [P.fn("hidden_bad"), P.fn("hidden_good")], ["src/controls.c"])
+    _expect(ctx, "R26.hidden-state", c, ["hidden_bad"], ["hidden_good"])
+
+
+ALL = {"hidden": hidden, "region_args": region_args, "widen": widen, "progress": progress, "lazyinit": lazyinit, "lanes": lanes, "atomic": atomic, "feasible": feasible, "endian": endian, "units": units, "alloc": alloc, "status": status, "ownership": ownership, "cursor": cursor, "arrays": arrays,
        "recursion": recursion, "narrowing": narrowing, "skeleton": skeleton, "must_pass": must_pass}
 
 
